@@ -56,7 +56,7 @@ Ltac xxh_shape :=
        u64 u32 N.of_nat Pos.of_succ_nat Pos.succ].
 
 Lemma xxh64_1 : forall b0, xxh64 [b0] = sum64uint8 b0.
-Proof. intro. xxh_shape. reflexivity. Qed.
+Proof. intro. xxh_shape. unfold sum64uint8. reflexivity. Qed.
 
 Lemma xxh64_2 : forall b0 b1,
   xxh64 [b0; b1] =
@@ -66,16 +66,16 @@ Proof. intros. xxh_shape. reflexivity. Qed.
 
 Lemma xxh64_4 : forall b0 b1 b2 b3,
   xxh64 [b0; b1; b2; b3] = sum64uint32 (le_word [b0; b1; b2; b3]).
-Proof. intros. xxh_shape. reflexivity. Qed.
+Proof. intros. xxh_shape. unfold sum64uint32. reflexivity. Qed.
 
 Lemma xxh64_8 : forall b0 b1 b2 b3 b4 b5 b6 b7,
   xxh64 [b0; b1; b2; b3; b4; b5; b6; b7] = sum64uint64 (le_word [b0; b1; b2; b3; b4; b5; b6; b7]).
-Proof. intros. xxh_shape. reflexivity. Qed.
+Proof. intros. xxh_shape. unfold sum64uint64. reflexivity. Qed.
 
 Lemma xxh64_16 : forall b0 b1 b2 b3 b4 b5 b6 b7 c0 c1 c2 c3 c4 c5 c6 c7,
   xxh64 [b0; b1; b2; b3; b4; b5; b6; b7; c0; c1; c2; c3; c4; c5; c6; c7] =
   sum64uint128 [b0; b1; b2; b3; b4; b5; b6; b7; c0; c1; c2; c3; c4; c5; c6; c7].
-Proof. intros. xxh_shape. reflexivity. Qed.
+Proof. intros. xxh_shape. cbv [sum64uint128 u64 firstn skipn]. reflexivity. Qed.
 
 Lemma sum64uint8_eq : forall v, sum64uint8 v = xxh64 [v].
 Proof. intro. symmetry. apply xxh64_1. Qed.
